@@ -23,9 +23,27 @@ SIGDECO_SRC = [
 ]
 
 
+AWRAP_SRC = [
+    "import functools as _functools",
+    "def _awrap(f):",
+    "    # a coroutine-function wrapper (functools.wraps, so __wrapped__ is set) around a PLAIN function",
+    "    # that returns an awaitable: the callback is asynchronous although inspect.unwrap() is not",
+    "    @_functools.wraps(f)",
+    "    async def w(*a, **k):",
+    "        return await f(*a, **k)",
+    "    return w",
+    "async def _aret(v):",
+    "    return v",
+    "",
+]
+
+
 def _cb_def(cid, cb, indent="    ", self_arg=True):
     name = cb["name"]
     deco = [f"{indent}@_sigdeco"] if cb.get("sigdeco") else []
+    if cb["async"] and cb.get("awrap"):
+        return [f"{indent}@_awrap", f"{indent}def {name}(self, *args, **kwargs):",
+                f"{indent}    return REC.arun({cid!r}, self, args, kwargs)"]
     if cb["async"]:
         return deco + [
             f"{indent}async def {name}(self, *args, **kwargs):",
@@ -65,6 +83,8 @@ def _guard_def(nm, g, prov, indent="    "):
         return [f"{indent}@property", f"{indent}def {nm}(self):", f"{indent}    return REC.guard({gid!r}, {nm!r})"]
     if g["kind"] == "attr":
         return [f"{indent}{nm} = True"]
+    if g.get("async") and g.get("awrap"):
+        return [f"{indent}@_awrap", f"{indent}def {nm}(self, *args, **kwargs):", f"{indent}    return REC.aguard({gid!r}, {nm!r}, kwargs)"]
     if g.get("async"):
         return [f"{indent}async def {nm}(self, *args, **kwargs):", f"{indent}    return await REC.aguard({gid!r}, {nm!r}, kwargs)"]
     return [f"{indent}def {nm}(self, *args, **kwargs):", f"{indent}    return REC.guard({gid!r}, {nm!r}, kwargs)"]
@@ -72,6 +92,8 @@ def _guard_def(nm, g, prov, indent="    "):
 
 def _validator_def(nm, v, prov, indent="    "):
     gid = f"{nm}@{prov}"
+    if v.get("async") and v.get("awrap"):
+        return [f"{indent}@_awrap", f"{indent}def {nm}(self, *args, **kwargs):", f"{indent}    return _aret(REC.validator({gid!r}, {nm!r}, kwargs))"]
     if v.get("async"):
         return [f"{indent}async def {nm}(self, *args, **kwargs):", f"{indent}    return REC.validator({gid!r}, {nm!r}, kwargs)"]
     return [f"{indent}def {nm}(self, *args, **kwargs):", f"{indent}    return REC.validator({gid!r}, {nm!r}, kwargs)"]
@@ -147,6 +169,8 @@ def render_canonical(spec, cls_suffix="", _providers_only=False, _uid=None):
     L = list(spec.get("prelude", []))
     if any(cb.get("sigdeco") for cb in spec["cbs"].values()):
         L += SIGDECO_SRC
+    if any(x.get("awrap") for grp in (spec["cbs"], spec["guards"], spec["validators"]) for x in grp.values()):
+        L += AWRAP_SRC
     listeners = [p for p in spec["providers"] + spec.get("late", []) if p not in ("sm", "model")]
     # listener + model classes
     for prov in listeners + ["model"]:
